@@ -83,6 +83,7 @@ let table : (str * (z list -> z)) list = [
   ("regular_cert", judge_regular_cert);
   ("equi_cert", judge_equi_cert);
   ("balanced_cert", judge_balanced_cert);
+  ("camion_cert", judge_camion_cert);
   ("cliverdict", judge_cliverdict);
 ]
 
